@@ -21,6 +21,7 @@ META = {
     ],
     "floor_evaluations": {"quick": 2000, "thorough": 20000},
     "floor_nontrivial": {"quick": 500, "thorough": 5000},
+    "threads": 3,
     "anchors": ["func_adl/ast/function_simplifier.py"],
 }
 
